@@ -704,6 +704,38 @@ def run(index: RepoIndex, rep) -> None:
               'gym_gridverse/grid_object.py', 'GridObjectRegistry.from_name', fr.node.lineno,
               '; '.join(src(e.stmt)[:60] for e in rz),
               'an unknown object name does not raise ValueError', 'unknown object -> ValueError')
+    # ... and a name denotes the class of exactly that name: the name is only compared for
+    # equality with `__name__` (or used as a key); a prefix / suffix / substring / case-folded
+    # match accepts unregistered names and builds some other environment
+    np_ = fr.node.args.args[1].arg if len(fr.node.args.args) > 1 else 'name'
+    loose = []
+    exact = 0
+    parents_: Dict[int, ast.AST] = {}
+    for n_ in ast.walk(fr.node):
+        for ch_ in ast.iter_child_nodes(n_):
+            parents_[id(ch_)] = n_
+    for n_ in ast.walk(fr.node):
+        if not (isinstance(n_, ast.Name) and n_.id == np_ and isinstance(n_.ctx, ast.Load)):
+            continue
+        pa = parents_.get(id(n_))
+        if isinstance(pa, ast.Compare) and len(pa.ops) == 1 and \
+                isinstance(pa.ops[0], (ast.Eq, ast.NotEq)) and \
+                any(src(x).endswith('.__name__') for x in [pa.left] + pa.comparators):
+            exact += 1
+        elif isinstance(pa, ast.Subscript) and pa.slice is n_:
+            exact += 1
+        elif isinstance(pa, ast.Call) and isinstance(pa.func, ast.Attribute) and \
+                pa.func.attr == 'get' and n_ in pa.args:
+            exact += 1
+        elif isinstance(pa, (ast.FormattedValue, ast.JoinedStr)):
+            pass        # error message
+        else:
+            loose.append(src(pa) if pa is not None else np_)
+    rep.check(exact >= 1 and not loose, 'C17.R5', 'gym_gridverse/grid_object.py',
+              'GridObjectRegistry.from_name', fr.node.lineno, '; '.join(loose)[:120] or np_,
+              f'object names are not matched by equality with the class name ({loose[:2]}): an '
+              f'unregistered name can be accepted as some registered class',
+              'object names matched exactly')
     # registries answer from their live content: a lookup structure kept besides the
     # registered items must be invalidated by register()
     n_reg = 0
